@@ -293,7 +293,11 @@ class Port_Matcher
 
         bool hard_match(int i, const char *msg)
         {
-            if(strncmp(msg, fixed[i].c_str(), fixed[i].length()))
+            const size_t len = fixed[i].length();
+            if(strncmp(msg, fixed[i].c_str(), len))
+                return false;
+            //unless the port is a subtree, the address has to end here
+            if((len == 0 || fixed[i][len-1] != '/') && msg[len])
                 return false;
             if(arg_spec[i])
                 return rtosc_match_args(arg_spec[i], msg);
